@@ -326,6 +326,10 @@ func (ex *Exec) checkPost(fr *Frame, ret *ssa.Return, st *State, pc *Term, vals 
 		return
 	}
 	env := ex.contractEnv(fr, st, vals)
+	if fr.root {
+		ex.curRets = vals
+		defer func() { ex.curRets = nil }()
+	}
 	for _, cl := range ex.rct.Clauses {
 		if cl.Kind != "ensures" || cl.Expr == nil {
 			continue
